@@ -159,6 +159,15 @@ def grammar():
                              "'name.__class__'", "'data._x'", "'child.__hidden'", "'_vf_secret'", "'pub'", "'child.pub'"])
     iters = st.sampled_from(['[obj, from]', '[obj.child, obj]', 'node.children()', '[node, node.parent]', 'to.values()', '[xobj]',
                              '(obj, from.child)', '[to["k"], to["a"]]'])
+    # string literals in member position that are themselves format templates over names an error message might bind
+    msgt = st.sampled_from(["'{obj._x}'", "'{member._x}'", "'{self._x}'", "'{obj.__dict__}'", "'{obj.child._x}'", "'{0._x}'", "'{value._vf_secret}'",
+                            "'{node._vf_secret}'", "'{obj._Sentinel__m}'", "'{name}'", "'{obj}'", "'{obj.pub}'"])
+    memtmpl = st.one_of(
+        st.builds(lambda x, t: f"{x}.{t}", sent, msgt),
+        st.builds(lambda x, t: f"{x}[{t}]", sent, msgt),
+        st.builds(lambda x, t: f"{x}.({t})", sent, msgt),
+        st.builds(lambda f, t: f"{f}({t})", st.sampled_from(DOCUMENTED + BADN[:8]), msgt),
+    )
     fn = st.one_of(st.sampled_from(['sorted', 'min', 'max', 'map', 'filter', 'sum', 'any', 'all', 'list', 'set', 'dict', 'zip', 'enumerate']),
                    st.sampled_from(DOCUMENTED))
     # functions outside the whitelist applied to environment objects the way an attacker would: they must not resolve
@@ -206,7 +215,7 @@ def grammar():
     def paren(e):
         return e.map(lambda x: f"({x})")
 
-    return st.recursive(st.one_of(ident, lit, sent, fmt, fmt, benign, pubval, pathcall, pathcall),
+    return st.recursive(st.one_of(ident, lit, sent, fmt, fmt, benign, pubval, pathcall, pathcall, memtmpl),
                         lambda e: st.one_of(member(e), member(e), call(e), call(e), index(e), lst(e), binop(e), paren(e)),
                         max_leaves=8)
 
@@ -437,6 +446,13 @@ def check(case):
             err = None
         except BaseException as ex:   # noqa: B902 - clean rejection unless it leaks (R2)
             err = ex
+    # rendering the error is part of what a caller sees (MatchIf / MatchUnless log it): it must not read anything either
+    err_text = ''
+    if err is not None:
+        try:
+            err_text = str(err) + ' ' + repr(err)
+        except Exception:
+            err_text = ''
     reads = sorted(set(READS))
     touched = TOUCHED[0]
     del READS[:]
@@ -446,10 +462,7 @@ def check(case):
     if res is not None and contains_secret(res):
         out.fail('secret-in-result', f"expression {s!r} evaluates to {repr(res)[:120]}")
     if err is not None:
-        try:
-            txt = str(err)
-        except Exception:
-            txt = ''
+        txt = err_text
         if SECRET in txt:
             out.fail('secret-in-exception', f"expression {s!r} raised {type(err).__name__}: {txt[:120]}")
     fk = forbidden_kind(res)
